@@ -687,6 +687,17 @@ theorem inv_run (parse : β → Toc δ) (ops : List (Op β δ)) :
   | nil => intro s hi _; exact hi
   | cons o rest ih => intro s hi hf; exact ih (inv_step H parse hi o hf.1) hf.2
 
+/-- `FaithfulRun` of a concatenated history. -/
+theorem faithfulRun_append (parse : β → Toc δ) (s : St β δ) (ops1 ops2 : List (Op β δ)) :
+    FaithfulRun H parse s (ops1 ++ ops2) ↔
+      FaithfulRun H parse s ops1 ∧ FaithfulRun H parse (run H parse s ops1) ops2 := by
+  induction ops1 generalizing s with
+  | nil => simp [FaithfulRun, run]
+  | cons o rest ih =>
+    simp only [List.cons_append, FaithfulRun, run]
+    rw [ih]
+    exact ⟨fun ⟨a, b, c⟩ => ⟨⟨a, b⟩, c⟩, fun ⟨⟨a, b⟩, c⟩ => ⟨a, b, c⟩⟩
+
 /-! ## what only `evict` can undo -/
 
 def Op.isEvict : Op β δ → Bool
